@@ -488,6 +488,7 @@ Section LinDynamics.
 
   (** ---- one mapped mass-action reaction at a metabolic steady state ---------------------------- *)
   Section Rxn.
+    Variable rk : repl_kind.     (* form of the isotopomer mapper's argument renaming: irrelevant under the hypotheses below *)
     Variable lv : label_vars.
     Variable r : brxn.
     Variable mun : list nat.
@@ -507,7 +508,7 @@ Section LinDynamics.
     Let sfx := suffix_of true lv r.
     Let psfx := psuffix_of true lv r lmap.
     Let v := envL (LPlain (r_name r)).
-    Let ratep := fun p => Rate envI (mk_iso_rxn lv r (sfx p) (psfx p)).
+    Let ratep := fun p => Rate envI (mk_iso_rxn rk lv r (sfx p) (psfx p)).
     Let fS := fun h => nth h S1 LExt.
     Let kx := prod (map (fun a => envI (LPlain a)) extra).
     Let PB := prod (map (Benv lv envI) bs).
@@ -517,7 +518,7 @@ Section LinDynamics.
     Hypothesis Hargs : Permutation (r_args r) (bs ++ extra).
     Hypothesis Hnd_st : NoDup (map fst (r_stoich r)).
     Hypothesis Hnd_bs : NoDup bs.
-    Hypothesis Hextra : forall a, In a extra -> ~ In a bs /\ ~ In a bp /\ nlab lv a = O.
+    Hypothesis Hextra : forall a, In a extra -> ~ In a bs /\ ~ In a bp /\ nlab lv a = O /\ (rk = ReplPositional -> getN a lv = None).
     Hypothesis Hperm : Permutation mun (seq O NN).
     Hypothesis Hpool : forall c, In c bs -> envL (LPlain c) = Benv lv envI c.
     Hypothesis Hflux : v = prod (map (Benv lv envI) (r_args r)).
@@ -550,12 +551,12 @@ Section LinDynamics.
     Qed.
 
     Lemma v_eq : v = PB * kx.
-    Proof. rewrite Hflux. exact (base_rate R rO rI radd rmul rsub ropp Rth lv r envI extra Hargs Hextra). Qed.
+    Proof. rewrite Hflux. exact (base_rate R rO rI radd rmul rsub ropp Rth rk lv r envI extra Hargs Hextra). Qed.
 
     Lemma ratep_eq p : In p (all_patterns tsl) -> ratep p = W R rI rmul nl wI bs p * kx.
     Proof.
       intro Hp. unfold ratep, sfx, psfx.
-      rewrite (rate_mass_action R rO rI radd rmul rsub ropp rinv Rth true lv r lmap envI extra
+      rewrite (rate_mass_action R rO rI radd rmul rsub ropp rinv Rth true rk lv r lmap envI extra
                                 Hfn Hargs Hnd_st Hnd_bs Hextra p).
       rewrite (subpairs_W R rI rmul true lv r envI p Hp). reflexivity.
     Qed.
@@ -563,7 +564,7 @@ Section LinDynamics.
     Lemma sum_ratep : sum (map ratep (all_patterns tsl)) = v.
     Proof.
       rewrite v_eq.
-      exact (sum_rates R rO rI radd rmul rsub ropp rinv Rth true lv r lmap envI extra
+      exact (sum_rates R rO rI radd rmul rsub ropp rinv Rth true rk lv r lmap envI extra
                        Hfn Hargs Hnd_st Hnd_bs Hextra).
     Qed.
 
@@ -608,7 +609,7 @@ Section LinDynamics.
     Variable isos : list (N * list lname).
     Variables irxns lrxns : list lrxn.
     Hypothesis Hlab : forall c, In c (bs ++ bp) -> O < nlab lv c.
-    Hypothesis Hiso : create_iso_rxns true lv r lmap = Ok irxns.
+    Hypothesis Hiso : create_iso_rxns true rk lv r lmap = Ok irxns.
     Hypothesis Hisos : lin_isotopomers lv = Ok isos.
     Hypothesis Hlin : lin_rxns DirDocumented isos r lmap = Ok lrxns.
 
@@ -699,7 +700,7 @@ Section LinDynamics.
                                            - Gsum R rO radd gbit c (subpairs true lv r p)) * ratep p)
                                 (all_patterns tsl)))
           by exact (weighted_collapse R rO rI radd rmul rsub ropp rinv ofZ Rth ofZ_0 ofZ_1 ofZ_add ofZ_opp
-                                      true lv r lmap envI gbit c irxns Hiso Hlen).
+                                      true rk lv r lmap envI gbit c irxns Hiso Hlen).
         unfold gbit at 1 in Hw. rewrite Hw. clear Hw.
         rewrite (s_ext _ _ (fun p =>
                    sum (map (fun xh => ind (fst xh) X * bitR (sfx p) (snd xh)) (combine PP (firstn tpl mun))) * ratep p
@@ -731,19 +732,19 @@ Section LinDynamics.
       pools, [NoDup (map fst lv)], [In c (bs ++ bp)] and the pool equations of the products are not used:
       see [enrichment_rate_core]) *)
   Theorem enrichment_rate_rxn :
-    forall (lv : label_vars) (r : brxn) (lmap : list Z) (extra : list N) (envI envL : lname -> R)
+    forall (rk : repl_kind) (lv : label_vars) (r : brxn) (lmap : list Z) (extra : list N) (envI envL : lname -> R)
            (isos : list (N * list lname)) (irxns lrxns : list lrxn) (mun : list nat),
       let bs := subs_of (r_stoich r) in let bp := prods_of (r_stoich r) in
       let tsl := total (labels_per lv bs) in let tpl := total (labels_per lv bp) in
       (* mass action with distinct substrates, as in IsoProofs.dynamics_collapse_rxn *)
       r_fn r = FProd -> Permutation (r_args r) (bs ++ extra) -> NoDup (map fst (r_stoich r)) -> NoDup bs ->
-      (forall a, In a extra -> ~ In a bs /\ ~ In a bp /\ nlab lv a = O) ->
+      (forall a, In a extra -> ~ In a bs /\ ~ In a bp /\ nlab lv a = O /\ (rk = ReplPositional -> getN a lv = None)) ->
       (* every compound of the reaction is labelled; label_variables is a dict *)
       NoDup (map fst lv) -> (forall c, In c (bs ++ bp) -> O < nlab lv c) ->
       (* the map is a bijection of the positions 0 .. max(tsl,tpl)-1 *)
       lmap = map Z.of_nat mun -> Permutation mun (seq O (Nat.max tsl tpl)) ->
       (* both models are built from the same inputs *)
-      create_iso_rxns true lv r lmap = Ok irxns ->
+      create_iso_rxns true rk lv r lmap = Ok irxns ->
       lin_isotopomers lv = Ok isos -> lin_rxns DirDocumented isos r lmap = Ok lrxns ->
       (* steady-state link between the two states *)
       (forall c, In c (bs ++ bp) -> envL (LPlain c) = Benv lv envI c
@@ -756,10 +757,10 @@ Section LinDynamics.
         = rinv (envL (LPlain c))
           * sum (map (fun bits => bitR bits i * Deriv envI irxns (iso_name c bits)) (all_patterns (nlab lv c))).
   Proof.
-    intros lv r lmap extra envI envL isos irxns lrxns mun bs bp tsl tpl
+    intros rk lv r lmap extra envI envL isos irxns lrxns mun bs bp tsl tpl
            Hfn Hargs Hnd_st Hnd_bs Hextra _ Hlab Hlmap Hperm Hiso Hisos Hlin Hpool Hflux Hmarg Hext c i _ Hi.
     subst lmap.
-    apply (enrichment_rate_core lv r mun extra envI envL Hfn Hargs Hnd_st Hnd_bs Hextra Hperm) with (isos := isos);
+    apply (enrichment_rate_core rk lv r mun extra envI envL Hfn Hargs Hnd_st Hnd_bs Hextra Hperm) with (isos := isos);
       try assumption.
     intros c' Hc'. apply Hpool. apply in_or_app. left. exact Hc'.
   Qed.
